@@ -194,7 +194,8 @@ class SimpleMultiFilePersistentFixedLengthBytesArray(collections.abc.Sequence):
         if index >= len(self) or index < -len(self):
             raise IndexError("Array index out of range")
 
-        ret = self._get_bytes_by_index(index)
+        actual_index = index % len(self)  # normalise a negative index, as __setitem__ does
+        ret = self._get_bytes_by_index(actual_index)
         return ret
 
     def __setitem__(self,
